@@ -1378,7 +1378,7 @@ class SliceSubsetState(SubsetState):
                 slices = [self.slices[idx] for idx in order]
 
         if (isinstance(view, np.ndarray) or
-                (isinstance(view, (tuple, list)) and isinstance(view[0], np.ndarray))):
+                (isinstance(view, (tuple, list)) and len(view) > 0 and isinstance(view[0], np.ndarray))):
             mask = np.zeros(data.shape, dtype=bool)
             mask[tuple(slices)] = True
             return mask[view]
